@@ -829,35 +829,8 @@ pub fn run(tier: Tier) -> i32 {
             }
         }
     }
-    // sanitizer side results (ASan / valgrind / Miri), produced by ./check in the thorough tier
-    let mut san = J::obj();
-    if let Ok(path) = std::env::var("VERIF_SAN_RESULT") {
-        if let Ok(text) = std::fs::read_to_string(&path) {
-            if let Ok(j) = J::parse(&text) {
-                if let Some(arr) = j.get("steps").and_then(|a| a.arr()) {
-                    for s in arr {
-                        let name = s.get("name").and_then(|x| x.str()).unwrap_or("?").to_string();
-                        let status = s.get("status").and_then(|x| x.str()).unwrap_or("?");
-                        let reports = s.get("reports").and_then(|x| x.int()).unwrap_or(0);
-                        tally.add(&format!("sanitizer/{}/reports", name), reports as u64);
-                        match status {
-                            "clean" => tally.count(&format!("sanitizer/{}/clean", name)),
-                            "report" => tally.violate(Violation {
-                                monitor: "sanitizer".into(),
-                                signature: format!("sanitizer|{}", name),
-                                detail: format!("{} reported {} problem(s): {}", name, reports, s.get("detail").and_then(|x| x.str()).unwrap_or("")),
-                                case: None,
-                                extra: s.clone(),
-                                known: None,
-                            }),
-                            other => tally.inconclusive.push(format!("sanitizer step {}: {} ({})", name, other, s.get("detail").and_then(|x| x.str()).unwrap_or(""))),
-                        }
-                    }
-                }
-                san = j;
-            }
-        }
-    }
+    // sanitizer / fuzzing side results (ASan, valgrind, Miri, libFuzzer), produced by ./check in the thorough tier
+    let san = crate::run::fold_sanitizer_results(&mut tally, true);
     if let Err(e) = &pre {
         tally.inconclusive.push(e.clone());
     }
@@ -877,6 +850,7 @@ pub fn run(tier: Tier) -> i32 {
         ctx.gate("AddressSanitizer run clean", tally.get("sanitizer/asan/clean"), 1);
         ctx.gate("valgrind memcheck run clean", tally.get("sanitizer/memcheck/clean"), 1);
         ctx.gate("Miri run clean", tally.get("sanitizer/miri/clean"), 1);
+        ctx.gate("coverage-guided (libFuzzer + ASan) run clean", tally.get("sanitizer/fuzz/clean"), 1);
     }
     let rep = Report {
         level: "exploration",
